@@ -749,13 +749,23 @@ func Main(cfg Config) {
 		return
 	}
 	summary := map[string]any{}
-	for _, mode := range modes {
+	// wall-clock budget of the whole walk (executions that end in a detected hang are slow): each mode gets its share,
+	// a mode that runs out of it is reported as not exhaustive
+	budget := 600.0
+	if s := os.Getenv("VERIF_BUDGET_S"); s != "" {
+		if v, err := strconv.ParseFloat(s, 64); err == nil {
+			budget = v
+		}
+	}
+	walkStart := time.Now()
+	for mi, mode := range modes {
+		modeDeadline := walkStart.Add(time.Duration(budget * float64(mi+1) / float64(len(modes)) * float64(time.Second)))
 		runs := 0
 		exhaustive := true
 		seen := map[string]bool{}
 		var dfs func(prefix []string)
 		dfs = func(prefix []string) {
-			if runs >= maxRuns {
+			if runs >= maxRuns || time.Now().After(modeDeadline) {
 				exhaustive = false
 				return
 			}
@@ -789,7 +799,7 @@ func Main(cfg Config) {
 		sampled := 0
 		if !exhaustive {
 			// seeded random sampling of further maximal paths
-			for i := 0; i < maxRuns; i++ {
+			for i := 0; i < maxRuns && !time.Now().After(modeDeadline); i++ {
 				o := runOne(&cfg, tr, mode, nil, func(opts []string) string { return opts[rng.Intn(len(opts))] })
 				tr++
 				if o.dead {
